@@ -187,8 +187,7 @@ def _deepcopy(fr, args, kwargs):
 
 def deep_copy(x):
     if isinstance(x, Arr):
-        a = Arr(x.axes, x.snapshot_fn(), x.kind, term=x.term)
-        a.meta = dict(x.meta)
+        a = x.copy()
         a.meta["copy_of"] = x
         return a
     if isinstance(x, list):
